@@ -491,6 +491,17 @@ func runCase(c Case) (op, ans string, fails []verdict) {
 				}
 			}
 		}
+		// the sender's own packet object has a wire form the second time too (a broadcast loop encodes one object once
+		// per peer; it carries the codec's wire bits from the first call now) and arrives the same. Not judged: a byte
+		// body under a cipher — every supported cipher encrypts in place and BodyToBytes hands out the packet's own
+		// slice, so the first call has overwritten the sender's bytes (recorded observation of the unchanged library).
+		if _, isBytes := sentBody.([]byte); !(isBytes && c.Enc != "") {
+			if q3, outcome3 := crossWire(c, p); q3 == nil {
+				fail("rebroadcast", "%s codec: the packet object (body %s, flag %#x after its first encoding) cannot cross the wire a second time: %s", c.Codec, showVal(sentBody), p.Flag(), outcome3)
+			} else if recvLine(q3) != ans {
+				fail("rebroadcast:changed", "%s codec: the same packet object arrives as %s the first time and as %s the second time", c.Codec, ans, recvLine(q3))
+			}
+		}
 		// every packet a decoder can produce can be sent on again (and arrives the same)
 		q2, outcome2 := crossWire(c, q)
 		if q2 == nil {
